@@ -456,6 +456,10 @@ def raised_in_harness(exc) -> bool:
     import os as _os
     if getattr(exc, "sim_injected", False):
         return False                  # a fault the simulator injected on purpose (EIO, connection reset, timeout)
+    if isinstance(exc, RuntimeError) and isinstance(exc.__cause__, (StopIteration, StopAsyncIteration)):
+        # PEP 479: a StopIteration escaping a generator frame is replaced by a RuntimeError whose own traceback starts
+        # at the CALLER of next() (here: harness code); where it was raised is the traceback of its cause
+        return raised_in_harness(exc.__cause__)
     tb = exc.__traceback__
     if tb is None:
         return False
